@@ -12,7 +12,9 @@ N3  `if not c: A else: B` is written `if c: B else: A` (both branches present, B
 N4  an `else` after a branch that always leaves (return / raise / continue / break) is hoisted:
     `if c: ...; return x  else: REST` -> `if c: ...; return x` followed by REST.
 N5  `if a: if b: X` (no else on either) is written `if a and b: X`.
-N6  `if c: t = A else: t = B` -> `t = A if c else B`; `if c: return A else: return B` -> `return A if c else B`.
+N6  a conditional expression that is the whole value of an assignment to a plain name or of a return is
+    spelled with statements: `t = A if c else B` -> `if c: t = A else: t = B`;
+    `return A if c else B` -> `if c: return A` followed by `return B` (so the CFG carries the guard).
 N8  keyword arguments of a call are ordered by name (no `**` splat present): evaluation order of pure
     argument expressions is irrelevant to every rule.
 
@@ -211,26 +213,29 @@ def _structural(fn) -> int:
                         s.test = s.test.operand
                         s.body, s.orelse = s.orelse, s.body
                         changed += 1
-                    # N6
-                    a, b = _single_assign(s.body), _single_assign(s.orelse)
-                    if a is not None and b is not None and a.targets[0].id == b.targets[0].id:
-                        new = ast.Assign(targets=a.targets, value=ast.IfExp(test=s.test, body=a.value, orelse=b.value), lineno=s.lineno)
-                        ast.copy_location(new, s)
-                        ast.copy_location(new.value, s)
-                        stmts[i] = new
-                        changed += 1
-                        continue
-                    a, b = _single_return(s.body), _single_return(s.orelse)
-                    if a is not None and b is not None:
-                        new = ast.Return(value=ast.IfExp(test=s.test, body=a.value, orelse=b.value))
-                        ast.copy_location(new, s)
-                        ast.copy_location(new.value, s)
-                        stmts[i] = new
-                        changed += 1
-                        continue
+                    # N6: a conditional expression that is the whole value of an assignment / return is spelled as statements
+                if isinstance(s, ast.Assign) and isinstance(s.value, ast.IfExp) and len(s.targets) == 1 and isinstance(s.targets[0], ast.Name):
+                    v = s.value
+                    a = ast.copy_location(ast.Assign(targets=[ast.Name(id=s.targets[0].id, ctx=ast.Store())], value=v.body), v.body)
+                    b = ast.copy_location(ast.Assign(targets=[ast.Name(id=s.targets[0].id, ctx=ast.Store())], value=v.orelse), v.orelse)
+                    new = ast.copy_location(ast.If(test=v.test, body=[a], orelse=[b]), s)
+                    ast.fix_missing_locations(new)
+                    stmts[i] = new
+                    changed += 1
+                    continue
+                if isinstance(s, ast.Return) and isinstance(s.value, ast.IfExp):
+                    v = s.value
+                    a = ast.copy_location(ast.Return(value=v.body), v.body)
+                    b = ast.copy_location(ast.Return(value=v.orelse), v.orelse)
+                    new = ast.copy_location(ast.If(test=v.test, body=[a], orelse=[]), s)
+                    ast.fix_missing_locations(new)
+                    stmts[i] = new
+                    stmts.insert(i + 1, b)
+                    changed += 1
+                    continue
+                if isinstance(s, ast.If):
                     # N4
-                    if s.orelse and _ends_in_jump(s.body) and not (len(s.orelse) == 1 and isinstance(s.orelse[0], ast.If)
-                                                                  and i + 1 < len(stmts)):
+                    if s.orelse and _ends_in_jump(s.body):
                         rest = s.orelse
                         s.orelse = []
                         stmts[i + 1:i + 1] = rest
@@ -262,8 +267,9 @@ def normalize_tree(tree: ast.Module) -> int:
     n = 0
     funcs = [x for x in ast.walk(tree) if isinstance(x, (ast.FunctionDef, ast.AsyncFunctionDef))]
     for fn in reversed(funcs):
-        n += _structural(fn)
-    # inner functions first so that their temporaries are gone before the outer counts are taken
-    for fn in reversed(funcs):
-        n += _normalize_function(fn)
+        for _ in range(4):
+            k = _structural(fn) + _normalize_function(fn)
+            n += k
+            if not k:
+                break
     return n
